@@ -12,6 +12,12 @@ MUTATORS = {"add", "remove", "discard", "append", "pop", "popleft", "extend",
             "intersection_update"}
 
 
+class VDictItems(V):
+    def __init__(self, ref, d):
+        self.ref = ref
+        self.d = d
+
+
 def tbool(x):
     return z3.BoolVal(x) if isinstance(x, bool) else x
 
@@ -78,6 +84,11 @@ class Interp:
             key = ast.unparse(s)
             if key in gu:
                 gu[key](ctx, self)
+            else:
+                import re as _re
+                for pat, fn in gu.items():
+                    if pat.startswith("re:") and _re.search(pat[3:], key):
+                        fn(ctx, self)
 
     def st_Pass(self, s):
         pass
@@ -406,7 +417,7 @@ class Interp:
             ctx.ghost[g] = self.fresh_like(gv, "hg_" + g)
 
     def fresh_like(self, v, base):
-        if isinstance(v, (VInt, VBool, VStr, VElem, VSet)):
+        if isinstance(v, (VInt, VBool, VStr, VElem, VSet, VCount)):
             return v.ty.fresh(base)
         if isinstance(v, (VList, VDict)):
             nv = v.ty.fresh(base)
@@ -429,23 +440,30 @@ class Interp:
     def check_inv(self, k, spec, phase, entry):
         ctx = self.ctx
         st = St(dict(ctx.env), dict(ctx.heap), dict(ctx.ghost), entry=entry, old=ctx.old,
-                extra=dict(ctx.loop_extra.get(k, {})) if hasattr(ctx, "loop_extra") else None)
+                extra=self._loop_extras(k))
         for name, f in spec["inv"](st):
             ctx.oblige("loop#%d/inv-%s[%s]" % (k, phase, name), f)
 
     def assume_inv(self, k, spec, entry):
         ctx = self.ctx
         st = St(dict(ctx.env), dict(ctx.heap), dict(ctx.ghost), entry=entry, old=ctx.old,
-                extra=dict(ctx.loop_extra.get(k, {})) if hasattr(ctx, "loop_extra") else None)
+                extra=self._loop_extras(k))
         for name, f in spec["inv"](st):
             ctx.assume(f)
+
+    def _loop_extras(self, k):
+        ctx = self.ctx
+        le = getattr(ctx, "loop_extra", {})
+        ex = dict(le.get(k, {}))
+        ex["$loops"] = {j: dict(v) for j, v in le.items()}
+        return ex
 
     def variant(self, k, spec, entry):
         if "variant" not in spec:
             return None
         ctx = self.ctx
         st = St(dict(ctx.env), dict(ctx.heap), dict(ctx.ghost), entry=entry, old=ctx.old,
-                extra=dict(ctx.loop_extra.get(k, {})))
+                extra=self._loop_extras(k))
         v = spec["variant"](st)
         return v if isinstance(v, (list, tuple)) else [v]
 
@@ -539,31 +557,13 @@ class Interp:
             ctx.loop_extra = {}
         ex = ctx.loop_extra[k] = {}
         if isinstance(itv, VSet):
-            S = itv
-            ex["$S"] = S
-            ex["$proc"] = empty_set(S.ty)
-            x = z3.Const(fresh_name("it_x"), S.ty.elem.sort)
-            e = z3.Const(fresh_name("e"), S.ty.elem.sort)
-
-            def guard():
-                proc = ex["$proc"]
-                # proc is a subset of S (engine invariant)
-                ctx.assume(z3.ForAll([e], z3.Implies(z3.Select(proc.t, e), z3.Select(S.t, e))))
-                ex["$x"] = x
-                return z3.And(z3.Select(S.t, x), z3.Not(z3.Select(proc.t, x)))
-
-            def guard_fn():
-                # body arm: exists an unprocessed element (x is its witness);
-                # exit arm: none left
-                return guard()
-
-            def prologue():
-                self.assign(s.target, S.ty.elem.wrap(x))
-
-            def epilogue():
-                ex["$proc"] = VSet(S.ty, z3.Store(ex["$proc"].t, x, True))
-
-            self._for_set(s, k, spec, S, ex, x, prologue, epilogue)
+            self._for_set(s, k, spec, itv, ex, lambda x: itv.ty.elem.wrap(x))
+            return
+        if isinstance(itv, VDictItems):
+            d = itv.d
+            keys = VSet(TSet(d.ty.key), d.dom)
+            self._for_set(s, k, spec, keys, ex,
+                          lambda x: VTuple([d.ty.key.wrap(x), self.dict_value(itv.ref, d, x, present=True)]))
             return
         if isinstance(itv, VList):
             L = itv
@@ -588,9 +588,12 @@ class Interp:
             return
         self.unsupported(s, "iteration over %r" % (itv,))
 
-    def _for_set(self, s, k, spec, S, ex, x, prologue, epilogue):
+    def _for_set(self, s, k, spec, S, ex, make_target):
         """loop over a set in arbitrary order with ghost processed-set $proc"""
         ctx = self.ctx
+        ex["$S"] = S
+        ex["$proc"] = empty_set(S.ty)
+        x = z3.Const(fresh_name("it_x"), S.ty.elem.sort)
         entry = ctx.snapshot()
         entry._extra = dict(ex)
         self.check_inv(k, spec, "entry", entry)
@@ -603,16 +606,15 @@ class Interp:
         self.assume_inv(k, spec, entry)
         if arm == 0:
             ctx.assume(z3.And(z3.Select(S.t, x), z3.Not(z3.Select(proc.t, x))))
-            ex["$x"] = x
-            v0 = None
-            prologue()
+            ex["$x"] = S.ty.elem.wrap(x)
+            self.assign(s.target, make_target(x))
             try:
                 self.exec_block(s.body)
             except ContinueSig:
                 pass
             except BreakSig:
                 return
-            epilogue()
+            ex["$proc"] = VSet(S.ty, z3.Store(proc.t, x, True))
             self.check_inv(k, spec, "preserved", entry)
             raise PathEnd()
         else:
@@ -670,6 +672,11 @@ class Interp:
         if not e.elts:
             ty = self.c.type_of_literal(e)
             return self.ctx.alloc(empty_list(ty))
+        items = [self.ctx.deref(self.eval(x)) for x in e.elts]
+        oty = getattr(self.c, "opaque_list_type", None)
+        if oty is not None and all(isinstance(x, VPy) for x in items):
+            return self.ctx.alloc(VList(oty, z3.IntVal(len(items)),
+                                        z3.Const(fresh_name("lit_a"), oty.asort)))
         self.unsupported(e, "list literal")
 
     def ex_Dict(self, e):
@@ -696,6 +703,8 @@ class Interp:
             if name in o.ty.methods:
                 return VFunc(name, _bind(o.ty.methods[name], obj))
         if isinstance(o, VElem):
+            if name in o.ty.fields and callable(o.ty.fields[name]):
+                return o.ty.fields[name](ctx, o.t)
             if name in o.ty.fields:
                 fn, rty, *guard = o.ty.fields[name]
                 if guard:
@@ -709,7 +718,9 @@ class Interp:
         if isinstance(o, VExc):
             if name in o.payload:
                 return o.payload[name]
-        if isinstance(o, (VSet, VList, VDict, VStr)) or isinstance(o, VTuple):
+        if isinstance(o, VPy):
+            return VFunc(name, lambda ctx, it, args, kwargs: VPy("<str>"))
+        if isinstance(o, (VSet, VList, VDict, VStr, VCount)) or isinstance(o, VTuple):
             return VFunc(name, _bind(_container_method(name), obj))
         hook = getattr(self.c, "getattr_hook", None)
         if hook is not None:
@@ -742,7 +753,7 @@ class Interp:
         self.unsupported(e, "subscript of %r" % (b,))
 
     def wrap_elem(self, ty, term):
-        if isinstance(ty, (TInt, TBool, TStr, TElem)):
+        if isinstance(ty, (TInt, TBool, TStr, TElem, TCount)):
             return ty.wrap(term)
         if isinstance(ty, TSet):
             return ty.wrap(term)
@@ -752,7 +763,7 @@ class Interp:
         ctx = self.ctx
         vty = b.ty.val
         term = z3.Select(b.val, kt)
-        if isinstance(vty, TSet):
+        if isinstance(vty, TSet) or getattr(vty, "mutable", False):
             # mutable value: a view cell that writes through
             if isinstance(base, VRef):
                 return ctx.alloc(vty.wrap(term),
@@ -952,6 +963,8 @@ class Interp:
             return z3.BoolVal(False)
         if isinstance(v, VList):
             return v.n > 0
+        if isinstance(v, VCount):
+            return v.t > 0
         if isinstance(v, VSet):
             # skolemised non-emptiness
             res = z3.Bool(fresh_name("nonempty"))
@@ -1072,6 +1085,10 @@ class Interp:
                     x = i
                     member.append(z3.And(i >= 0, i < it.n))
                     xv = self.wrap_elem(it.ty.elem, z3.Select(it.a, i))
+                elif isinstance(it, VCount):
+                    # elements are opaque; only usable for opaque results
+                    self.assign(gen.target, VPy("<elem>"))
+                    continue
                 else:
                     self.unsupported(e, "comprehension over %r" % (it,))
                 bound.append(x)
@@ -1093,6 +1110,18 @@ class Interp:
                 self.unsupported(e, "impure comprehension element")
         finally:
             ctx.env = saved_env
+        if isinstance(kv, VPy):
+            oty = getattr(self.c, "opaque_list_type", None)
+            if kind == "list" and oty is not None:
+                # only emptiness is characterised: len > 0  <=>  some tuple satisfies the generators
+                L = oty.fresh("olist")
+                cond = z3.And(*member) if member else z3.BoolVal(True)
+                ws = [z3.Const(fresh_name("wit"), b.sort()) for b in bound]
+                ctx.assume(L.n >= 0)
+                ctx.assume(z3.Implies(L.n > 0, z3.substitute(cond, *zip(bound, ws))))
+                ctx.assume(z3.ForAll(bound, z3.Implies(cond, L.n > 0)))
+                return ctx.alloc(L)
+            return VPy("<iterable of opaque>")
         cond = z3.And(*member) if member else z3.BoolVal(True)
         kt = _as_term(kv)
         if kind in ("set", "gen"):
@@ -1313,7 +1342,14 @@ def _list_extend(ctx, it, obj, o, args, kw):
     raise Unsupported("extend with %r" % (other,))
 
 
+def _count_append(ctx, it, obj, o, args, kw):
+    _need_ref(obj, "append")
+    ctx.store(obj, VCount(o.t + 1))
+    return NONE
+
+
 CONTAINER_METHODS = {
+    ("VCount", "append"): _count_append,
     ("VSet", "add"): _set_add,
     ("VSet", "remove"): _set_remove,
     ("VSet", "discard"): _set_discard,
@@ -1366,7 +1402,12 @@ def _dict_copy(ctx, it, obj, o, args, kw):
     return ctx.alloc(VDict(o.ty, o.dom, o.val))
 
 
+def _dict_items(ctx, it, obj, o, args, kw):
+    return VDictItems(obj, o)
+
+
 CONTAINER_METHODS.update({
+    ("VDict", "items"): _dict_items,
     ("VDict", "get"): _dict_get,
     ("VDict", "setdefault"): _dict_setdefault,
     ("VDict", "values"): _dict_values,
@@ -1401,6 +1442,8 @@ def _b_len(ctx, it, args, kw):
         return VInt(len(v.items))
     if isinstance(v, VStr):
         return VInt(z3.Length(v.t))
+    if isinstance(v, VCount):
+        return VInt(v.t)
     if hasattr(v, "length"):
         return v.length(it)
     raise Unsupported("len(%r)" % (v,))
